@@ -1,0 +1,10 @@
+//go:build verif
+
+package batched
+
+import "github.com/cloudflare/pat-go/tokens"
+
+// Verification hook (build tag verif only): read access to the decoded request list.
+func (r *BatchedTokenRequest) VerifRequests() []tokens.TokenRequestWithDetails {
+	return r.token_requests
+}
